@@ -619,8 +619,87 @@ func genHistory(rng *rand.Rand, pools hPools, nops int, emphasis string, instanc
 	return ops
 }
 
+// genBulk builds a history around ONE large swarm (hundreds to more than a thousand members of each role, far
+// beyond the tiny colliding pools of genHistory): batch sizes and loop bounds inside the stores (expiry in
+// batches, selection over many members, counters adjusted by amounts > 1) only show with such populations.
+func genBulk(rng *rand.Rand, pools hPools, instances int) []hOp {
+	sizes := []int{513, 700, 1025, 1300}
+	ns, nl := sizes[rng.Intn(len(sizes))], sizes[rng.Intn(len(sizes))]
+	if rng.Intn(3) == 0 {
+		ns = 40 + rng.Intn(60)
+	}
+	v6 := rng.Intn(3) == 0
+	ih := pools.ihs[rng.Intn(len(pools.ihs))]
+	clock := int64(1_700_000_000_000_000_000)
+	var ops []hOp
+	mk := func(k int, seeder bool) hOp {
+		id := make([]byte, 20)
+		copy(id, []byte("-BK0001-"))
+		binary.BigEndian.PutUint32(id[16:], uint32(k))
+		op := hOp{T: "store", IH: ih, V6: v6, PID: hx(id), Port: 1024 + k%50000, Inst: rng.Intn(instances)}
+		if v6 {
+			ip := net.ParseIP("2001:db8::")
+			binary.BigEndian.PutUint32(ip[12:], uint32(k+1))
+			op.IP = hx(ip)
+		} else {
+			op.IP = hx([]byte{10, byte(k >> 16), byte(k >> 8), byte(k)})
+		}
+		if seeder {
+			op.Which = 1
+		} else {
+			op.Which = 3
+		}
+		return op
+	}
+	ops = append(ops, hOp{T: "clock", Ns: clock})
+	for k := 0; k < ns; k++ {
+		ops = append(ops, mk(k, true))
+	}
+	for k := 0; k < nl; k++ {
+		ops = append(ops, mk(100000+k, false))
+	}
+	ops = append(ops, hOp{T: "totals", Inst: rng.Intn(instances)}, hOp{T: "scrape", IHs: []string{ih}, V6: v6, Inst: rng.Intn(instances)})
+	// a later clock; a fraction of the members re-announces (stays), one extra fresh member joins
+	stale := clock
+	clock += int64(10 * time.Minute)
+	ops = append(ops, hOp{T: "clock", Ns: clock})
+	keepS, keepL := rng.Intn(3), rng.Intn(3) // 0: nobody re-announces
+	for k := 0; k < ns; k++ {
+		if keepS > 0 && k%(keepS+1) == 0 {
+			ops = append(ops, mk(k, true))
+		}
+	}
+	for k := 0; k < nl; k++ {
+		if keepL > 0 && k%(keepL+2) == 0 {
+			ops = append(ops, mk(100000+k, false))
+		}
+	}
+	pr := mk(7, false)
+	pr.T, pr.Seeder, pr.NW = "peers", false, []uint32{30, 50, 100}[rng.Intn(3)] // the selection checker is O(numwant x members)
+	ops = append(ops, pr)
+	ops = append(ops, hOp{T: "gc", Cutoff: stale + 5, Inst: rng.Intn(instances)})
+	ops = append(ops, hOp{T: "totals", Inst: rng.Intn(instances)}, hOp{T: "scrape", IHs: []string{ih}, V6: v6, Inst: rng.Intn(instances)}, hOp{T: "dump"})
+	ps := mk(3, true)
+	ps.T, ps.Seeder, ps.NW = "peers", true, 30
+	ops = append(ops, ps)
+	// and everything expires
+	ops = append(ops, hOp{T: "gc", Cutoff: clock + 5, Inst: rng.Intn(instances)}, hOp{T: "totals", Inst: rng.Intn(instances)},
+		hOp{T: "scrape", IHs: []string{ih}, V6: v6, Inst: rng.Intn(instances)}, hOp{T: "dump"})
+	return ops
+}
+
 func histStream(o *Out, rng *rand.Rand, n int, emphasis string) {
 	memShards := []int{1, 2, 7, 1024}
+	// two large-swarm histories first (one per store), more in the thorough tier
+	for i := 0; i < 2+n/150; i++ {
+		cfg := hStoreCfg{Kind: "mem", Shards: memShards[i%len(memShards)]}
+		inst := 1
+		if i%2 == 1 {
+			cfg = hStoreCfg{Kind: "redis", Instances: 1 + i%3}
+			inst = cfg.Instances
+		}
+		runHistory(o, "bulk-"+cfg.Kind, cfg, genBulk(rng, mkPools(rng, cfg.Shards), inst))
+	}
 	for i := 0; i < n; i++ {
 		var cfg hStoreCfg
 		if i%2 == 0 {
